@@ -303,7 +303,8 @@ class Models:
         """object of a class outside the function table: instance dict, then its class, else AttributeError"""
         sid = STR.sid(name)
         iv = z3.If(is_ref(v), z3.Select(st.get("idict", a_of(v)), sid), ABSENT)
-        cv = clsattr(eng.type_of(st, v), sid)
+        # (an attribute read on a class value sees what instances of that class see: the class attribute, inherited ones included)
+        cv = z3.If(is_cls(v), clsattr(c_of(v), sid), clsattr(eng.type_of(st, v), sid))
         val = z3.If(is_absent(iv), cv, iv)
         out = []
         for s2, b in eng.split(st, is_absent(val), note="attr %s missing" % name):
@@ -1740,6 +1741,19 @@ class Models:
         if is_val(x):
             return [Res("ok", st, vbool(z3.And(is_ref(x), st.get("cls_of", a_of(x)) == CLS.cid("function"))))]
         return [Res("ok", st, vbool(z3.BoolVal(False)))]
+
+    def bi_reversed(self, eng, st, pos, kw, fx):
+        v = eng.to_val(st, pos[0])
+        if not eng.valid(st, z3.And(is_ref(v), st.get("cls_of", a_of(v)) == CLS.cid("list"))):
+            raise Unsupported("reversed() of something not known to be a list")
+        a = a_of(v)
+        n, arr = st.get("llen", a), st.get("lelem", a)
+        rn, rarr = fresh("revn", I), fresh("reva", ArrIV)
+        j = z3.Int("j!rev")
+        st = st.fork()
+        st.assume(rn == n, z3.ForAll([j], z3.Select(rarr, j) == z3.If(z3.And(j >= 0, j < n), z3.Select(arr, n - 1 - j), ABSENT),
+                                     patterns=[z3.Select(rarr, j)]))
+        return [Res("ok", st, eng.alloc_list_sym(st, rn, rarr))]
 
     def bi_warnings_warn(self, eng, st, pos, kw, fx):
         st.ghost = dict(st.ghost)
